@@ -339,6 +339,12 @@ def _sk_calls(trace):
 def _pb_iter(E, env, trace, fq, ordn):
     """a completed iteration: a nested tag was skipped, or a continuation tag closed one section"""
     ob = lambda n, c, d: E.oblige('%s::C01.block.%s' % (fq, n), c, kind='trace', detail=d)  # noqa
+    # C06 (work bound): an iteration of the end-tag search never compiles a nested block (no direct parse_block call):
+    # nested blocks are stepped over by parse_close and compiled once, later, by parse() of the section
+    E.oblige('%s::C06.block.nested_blocks_are_skipped_not_compiled' % fq,
+             bool(not [t for t in trace if t[0] == 'contract-call' and t[1] == PB]), kind='trace',
+             detail='parse_block does not call parse_block directly while it searches its end tag (that would compile every nested '
+                    'block once per enclosing level: work exponential in the nesting depth)')
     g = E.ghost_env(env)
     hss = E.as_z3_int(g['h_sstart'])
     hl, ht = E.as_z3_int(env.locals['l_']), z3.Length(E.as_z3_str(env.locals['tag']))
@@ -377,6 +383,12 @@ def _pb_exit(E, outcome, value, env, prefix):
     res = fin['result']
     apps = [t for t in E.trace if t[0] == 'list_append' and t[1] == res.addr]
     ob('block.appends_exactly_one_item', bool(len(apps) == 1), 'a block contributes exactly one compiled item to the enclosing piece list')
+    # C06 (work bound): while looking for its own end tag, parse_block only SKIPS nested blocks (parse_close); it compiles a
+    # nested block exactly once, later, through parse() of the section.  A direct parse_block -> parse_block call would
+    # compile every nested block once per enclosing level (work exponential in the nesting depth).
+    direct = [t for t in tail if t[0] == 'contract-call' and t[1] == PB]
+    _ob(E, prefix, 'C06')('block.nested_blocks_are_skipped_not_compiled', bool(not direct),
+                          'parse_block does not call parse_block directly: nested blocks are stepped over while the end tag is searched')
     sks = _sk_calls(tail)
     hl, ht = E.as_z3_int(fin['l_']), z3.Length(E.as_z3_str(fin['tag']))
     ob('block.resumes_after_the_end_tag_and_one_line_end', bool(len(sks) == 1) and E.valid(E.as_z3_int(sks[0]['start']) == hl + ht)
